@@ -102,6 +102,24 @@ def audit_axioms(module, names):
         res[m.group(1)] = [a.strip() for a in m.group(3).split(",")] if m.group(3) else []
     return res, out, rc
 
+def adsb_imports(module, seen=None):
+    """the project's own modules a module imports, transitively (the generated tables included)"""
+    seen = seen if seen is not None else []
+    if module in seen: return seen
+    seen.append(module)
+    path = os.path.join(LEAN_DIR, module.replace(".", "/") + ".lean")
+    if os.path.exists(path):
+        for m in re.findall(r"^import (Adsb\.[\w.]+)", open(path).read(), re.M): adsb_imports(m, seen)
+    return seen
+
+def leancheck(modules):
+    """replay the compiled modules with leanchecker, Lean's independent checker of .olean files; {module: ok}"""
+    import concurrent.futures
+    def one(m):
+        rc, out = sh(["lake", "env", "leanchecker", m], cwd=LEAN_DIR, timeout=3600)
+        return m, rc == 0, out[-300:]
+    with concurrent.futures.ThreadPoolExecutor(8) as ex: return list(ex.map(one, modules))
+
 FORBIDDEN = re.compile(r"\b(sorry|admit|native_decide|bv_decide|implemented_by|unsafe)\b|^axiom |maxHeartbeats 0", re.M)
 def grep_forbidden():
     hits = []
